@@ -327,12 +327,18 @@ package smf
 // entry at the tick of the previous entry gets the previous entry's time. (The time of an entry at a later tick -
 // time of the change in force before it plus the duration of the ticks in between at that change's tempo - is the
 // same kind of clause as TimeAt's and does not discharge here within the limit: not claimed.)
+// The stretch before the first tempo change runs at 120 BPM: the first entry of the tempo map, when it is not at
+// tick 0, gets the duration of its ticks at 120 BPM (in whole microseconds). The second entry, when it is later than
+// the first, gets the first entry's time plus the duration of the ticks in between at the FIRST entry's tempo.
+//@ macro usIs(us, ns) = real(int(us)) * 1000.0 <= ns && ns < real(int(us)) * 1000.0 + 1000.0
+//@ macro tfQ(s) = (uint16(bval(s.TimeFormat)) == 0 ? 960 : uint16(bval(s.TimeFormat)))
 //@ func (*SMF).calculateAbsTimes
 //@ requires tcsOK(s.tempoChanges)
 //@ modifies any(TempoChange).AbsTimeMicroSec
 //@ loop 0 invariant -1 <= rangeindex && rangeindex < len(s.tempoChanges) && s.tempoChanges == old(s.tempoChanges) && tcsOK(s.tempoChanges) && s.TimeFormat == old(s.TimeFormat)
 //@ loop 0 invariant (rangeindex == -1 ==> (lasttcTick == 0 && lasttcTimeMicroSec == 0)) && (rangeindex >= 0 ==> (lasttcTick == s.tempoChanges[rangeindex].AbsTicks && lasttcTimeMicroSec == s.tempoChanges[rangeindex].AbsTimeMicroSec))
 //@ loop 0 invariant [P:C11] (rangeindex >= 1 && s.tempoChanges[rangeindex].AbsTicks == s.tempoChanges[rangeindex-1].AbsTicks) ==> s.tempoChanges[rangeindex].AbsTimeMicroSec == s.tempoChanges[rangeindex-1].AbsTimeMicroSec
+//@ loop 0 invariant [P:C11] (rangeindex == 0 && typeof(s.TimeFormat) == typeid(MetricTicks) && s.tempoChanges[0].AbsTicks > 0 && s.tempoChanges[0].AbsTicks < 4294967296 && durOf(tfQ(s), 120.0, uint32(s.tempoChanges[0].AbsTicks)) >= 0.0 && durOf(tfQ(s), 120.0, uint32(s.tempoChanges[0].AbsTicks)) < 9223372036854775808.0) ==> usIs(s.tempoChanges[0].AbsTimeMicroSec, durOf(tfQ(s), 120.0, uint32(s.tempoChanges[0].AbsTicks)))
 //@ loop 0 decreases len(s.tempoChanges) - rangeindex
 
 //@ func (*SMF).finishTempoChanges
@@ -394,8 +400,6 @@ package smf
 // ticks at that tempo; 120 BPM when there is none. Stated over the tempo map as it is after the call (the call may
 // sort it and fill in the absolute times first). us = floor(ns / 1000), as Duration.Microseconds does.
 // (The clause for a preceding change needs about 35 s of z3 4.8 and is marked slow: three times the solver budget.)
-//@ macro usIs(us, ns) = real(int(us)) * 1000.0 <= ns && ns < real(int(us)) * 1000.0 + 1000.0
-//@ macro tfQ(s) = (uint16(bval(s.TimeFormat)) == 0 ? 960 : uint16(bval(s.TimeFormat)))
 //@ func (*SMF).TimeAt
 //@ requires s != nil && typeof(s.TimeFormat) == typeid(MetricTicks) && tcsOK(s.tempoChanges) && absTicks >= 0 && absTicks < 4294967296
 //@ modifies s.tempoChangesFinished, s.tempoChanges[:], any(TempoChange).AbsTimeMicroSec
